@@ -4,6 +4,7 @@ solver is run with the objective raising exactly there, and the recorded run is 
 returns, the result and the search information are those of the k-1 completed trials, the failed point is absent.
 AGP.tla explores the same fault action exhaustively at design level (EvalRaise enabled in every evaluation state)."""
 import random as _r
+import warnings
 
 from ..agp_drv import FnProblem, SolverRun, objective_zoo, rand_box_solver
 from ..common import finish
@@ -42,7 +43,14 @@ def fault_matrix(ctx):
                 if mode == "dgi+solve":
                     for j in scen.compositions(rng, rng.randint(1, k - 2)):
                         run.dgi(j)
-                run.solve()
+                if (k + b) % 4 == 0:
+                    # the user's interpreter turns warnings into errors (python -W error, pytest filterwarnings=error): Solve must return all the same
+                    with warnings.catch_warnings():
+                        warnings.simplefilter("error")
+                        run.solve()
+                    run.events[0]["tag"] += "/-Werror"
+                else:
+                    run.solve()
                 fired = any(e["ev"] == "fail" for e in run.events)
                 if fired and rng.random() < 0.4:
                     # beyond C16's statement (specification growth): the solver is used further after the contained failure; the trace
